@@ -1,13 +1,13 @@
 #!/usr/bin/env python3
-"""copies a sub-agent's deliverables (/tmp/seed_wt/<ID>/SEED/change<k>/) to /verif/seeded/<ID>-<k>/ with a meta.json stub"""
+"""copies a sub-agent's deliverables (/tmp/seed2/<ID>/SEED/change<k>/) to /verif/seeded/<ID>-<k>/ with a meta.json stub"""
 import json, os, shutil, sys
 HERE = os.path.dirname(os.path.abspath(__file__))
 for pid in sys.argv[1:]:
     for k in (1, 2, 3):
-        src = f"/tmp/seed_wt/{pid}/SEED/change{k}"
+        src = f"/tmp/seed2/{pid}/SEED/change{k}"
         if not os.path.isdir(src):
             continue
-        dst = os.path.join(HERE, "seeded", f"{pid}-{k}")
+        dst = os.path.join(HERE, "seeded", f"{pid}-r2-{k}")
         os.makedirs(dst, exist_ok=True)
         for f in os.listdir(src):
             if os.path.isfile(os.path.join(src, f)) and not f.endswith(".pyc"):
